@@ -211,7 +211,6 @@ class ModelObject:
                     loaded_ids=loaded_ids,
                 )
                 for key, value in d["arguments"].items()
-                if value
             }
         elif type_ == "instance":
             class_path = get_class_path()
